@@ -65,7 +65,7 @@ def jobs(tier, seed):
     out = []
     depth = 2 if tier == 'quick' else 3
     for kind in POOLS:
-        n = len(POOLS[kind]) + 2
+        n = len(POOLS[kind]) + 3
         for first in range(n):
             for dflt in (False, True) if first < 2 else (False,):
                 dep = depth
@@ -133,7 +133,7 @@ def history(E, cfg):
         conv = MoneyConverter(cur['EUR'])
     conv._rate_dict = C.ScanDict()
     kind = cfg['kind']
-    pool = list(POOLS[kind]) + ['other-kind', 'invalid']
+    pool = list(POOLS[kind]) + ['other-kind', 'invalid', 'bad-spec']
     ref = {}                    # (period, currency code) -> Fraction rate
     ref_kind = None
     a = E.rational('a', 'dec')
@@ -158,6 +158,15 @@ def history(E, cfg):
                                 ValueError, 'mixed-validity-kind-rejected')
                 E.check(_snapshot(conv) == before, 'rejected-update-leaves-converter-unchanged',
                         key='update:mixed-kind-changed-converter')
+        elif entry == 'bad-spec':
+            # a valid validity, but one of the rate specifications (not the first) is rejected: nothing is stored
+            validity = POOLS[kind][0][0]
+            bad = E.choice('badspec%d' % step, [(cur['EUR'], Decimal('1.0'), 1), (cur['USD'], Decimal(0), 1), ('QQQ', '1.3', 1)])
+            specs_ = [(cur['HKD'], Decimal('9.99'), 1), bad, (cur['JPY'], Decimal('99.9'), 1)]
+            if ref_kind is None or ref_kind == _period_of(validity)[0]:
+                C.expect_raises(E, lambda: conv.update(validity, specs_), ValueError, 'update-with-bad-spec-rejected')
+                E.check(_snapshot(conv) == before, 'rejected-update-leaves-converter-unchanged',
+                        key='update:bad-spec-changed-converter', info=[repr(bad[1])])
         elif entry == 'invalid':
             bad = E.choice('bad%d' % step, INVALID[kind])
             C.expect_raises(E, lambda: conv.update(bad[0], [(cur['USD'], Decimal('3.33'), 1)]), ValueError,
